@@ -1100,7 +1100,7 @@ def gen_sync_panic(rng):
     return {"actors": actors, "msgs": msgs, "ops": ops}
 
 
-SYNC_PANIC = os.environ.get("RV_SYNC_PANIC", "") == "1"
+SYNC_PANIC = os.environ.get("RV_SYNC_PANIC", "1") == "1"   # on since fix F13 (/repo 51d0dd7); RV_SYNC_PANIC=0 switches the family off
 
 
 def gen_remote(rng, k, focus):
